@@ -253,6 +253,12 @@ def run(tier, seed):
     # (a)
     subs = [tuple(p) for k in (1, 2) for p in itertools.permutations(B06, k)]
     subs += [tuple(p) for p in itertools.permutations(B06, 3)] if thorough else covering_triples()
+    # the same reaction more than once in a batch
+    n6 = len(B06)
+    subs += [(x, x) for x in B06]
+    for i, x in enumerate(B06):
+        for y in ((B06[(i + 1) % n6],) if not thorough else [b for b in B06 if b != x]):
+            subs += [(x, x, y), (x, y, x), (y, x, x)]
     ra = pmap("checks.c06:subbatch_case", subs, chunk=4, seed=seed, timeout=7200)
     for s, bad in zip(subs, ra):
         for b in bad:
@@ -338,7 +344,7 @@ def run(tier, seed):
         "real_joblib_worker_counts": list(ks),
         "evaluations": n_exec + len(subs) + len(pj) + len(reps),
         "distinct_nontrivial": len(subs) + n_exec,
-        "rule": "(a) every ordered sub-batch of size 1..2{} (triples and 3..5-tuples of MCS-bound reactions also with n_jobs 2 and 3) of the 16-reaction base set, the 17-reaction set under every "
+        "rule": "(a) every ordered sub-batch of size 1..2{}, batches that repeat a reaction (x,x / x,x,y / x,y,x / y,x,x) (triples and 3..5-tuples of MCS-bound reactions also with n_jobs 2 and 3) of the 16-reaction base set, the 17-reaction set under every "
                 "batch size; (b) for 3 batches of 3 rows every Parallel call x every non-default task order "
                 "(all 3! orders) with <= {} order deviation(s) x isolation {} (two deviations: inline for every batch and per-task copies for the first batch; one deviation otherwise); (c) real joblib with n_jobs in {}; "
                 "(d) repeated runs on one instance.  distinct_outcomes = distinct row tables seen over all schedules "
